@@ -11,3 +11,12 @@ package types
 //@   trusted
 //@   returns err
 //@ end
+
+// a collection is built from a class definition and the list of its tokens: the definition is kept as it is and every
+// token of the list is added (count level: the tokens are interface values)
+//@ func NewCollection(denom, nfts)
+//@   property C12, C14
+//@   returns c
+//@   invariant #1 idx: rangeindex >= 0 - 1 && rangeindex < len(nfts) && len(c.NFTs) == rangeindex + 1 && c.Denom == denom
+//@   ensures kept: c.Denom == denom && len(c.NFTs) == len(nfts)
+//@ end
